@@ -350,7 +350,7 @@ pub fn run(tier: Tier, seed: u64) -> i32 {
         }
     };
     let roots = session_roots(seed ^ 17, tier.pick(80, 600));
-    let n_scripts = tier.pick(160usize, 1200);
+    let n_scripts = tier.pick(160usize, 3000);
     let res = run_parallel(16, n_scripts, |sid| {
         let mut acc = Acc::new();
         let mut slow = Vec::new();
